@@ -1035,13 +1035,24 @@ class Consumer(object):
 
         proc_block_begin = 0
         proc_block_end = proc_block_size
+        run = self._run  # these messages belong to this run of the consumer
 
         while proc_block_begin < len(messages) and not (self._shuttingdown or self._stopping):
             msgs_to_proc = messages[proc_block_begin:proc_block_end]
             # Call our processor callable and handle the possibility it returned
             # a deferred...
             last_offset = msgs_to_proc[-1].offset
-            self._processor_d = d = maybeDeferred(self.processor, self, msgs_to_proc)
+            d = maybeDeferred(self.processor, self, msgs_to_proc)
+            if self._run != run and self._start_d is not None:
+                # The processor stopped the consumer and started it again: a
+                # new run is on. The rest of these messages must not be
+                # delivered into it, and the result of this call is nobody's
+                # business any more (in particular not the new start()
+                # deferred's).
+                d.addErrback(lambda failure: None)
+                d.cancel()
+                return
+            self._processor_d = d
             # Once the processor completes, clear our _processor_d
             d.addBoth(self._clear_processor_deferred)
             # Record the offset of the last processed message and check autocommit
